@@ -832,7 +832,7 @@ _GLOBAL_FUNCS = ('len', 'isinstance', 'set', 'list', 'dict', 'tuple', 'sorted', 
                  'unchanged', 'index_of', 'str_index', 'subseq', 'substr', 'str_len', 'setv',
                  'union_of', 'same_elems', 'is_fresh', 'seq_map_eq', 'let', 'emp', 'char_at',
                  'is_digit_str', 'str_to_int', 'concat_seq', 'mkseq', 'is_list', 'store', 'dict_has', 'dict_get',
-                 'dict_keys', 'implies_all', 'remove_positions', 'trig', 'same', 'dict_index', 'allocated', 'ncalls', 'call_arg', 'call_result', 'in_timeout_scope', 'nraised', 'str_prefix', 'pure_IO_encrypted_of', 'py_lower', 'substr_after_last', 'py_int_ok', 'py_int_val', 'py_join_seq', 'alloc_ordered')
+                 'dict_keys', 'implies_all', 'remove_positions', 'trig', 'same', 'dict_index', 'allocated', 'ncalls', 'call_arg', 'call_result', 'in_timeout_scope', 'nraised', 'str_prefix', 'pure_IO_encrypted_of', 'py_lower', 'substr_after_last', 'py_int_ok', 'py_int_val', 'py_join_seq', 'alloc_ordered', 'str_suffix', 'py_decode')
 
 
 def global_object_val(st, nm):
